@@ -178,18 +178,27 @@ inline void fdOverX(Ctx &c, const std::string &mon, const OptCase &oc, const Opt
     {
         double sc = std::max(1.0, std::fabs(x(cp.idx)));
         double h = 1e-3 * sc;
-        double vals[4];
         const double ks[4] = {2, 1, -1, -2};
         double fmax = 0;
-        for (int q = 0; q < 4; ++q)
+        auto stencil = [&](double hh) -> double
         {
-            VectorXd x2 = x;
-            x2(cp.idx) += ks[q] * h;
-            vals[q] = evalFresh(oc, x2, threeCosts);
-            fmax = std::max(fmax, std::fabs(vals[q]));
-        }
-        double fd = (-vals[0] + 8 * vals[1] - 8 * vals[2] + vals[3]) / (12 * h);
-        double noise = (1e5 * 2.2e-16 / 1e-3 + 1e-8) * (Cabs + fmax) / sc;
+            double vals[4];
+            for (int q = 0; q < 4; ++q)
+            {
+                VectorXd x2 = x;
+                x2(cp.idx) += ks[q] * hh;
+                vals[q] = evalFresh(oc, x2, threeCosts);
+                fmax = std::max(fmax, std::fabs(vals[q]));
+            }
+            return (-vals[0] + 8 * vals[1] - 8 * vals[2] + vals[3]) / (12 * hh);
+        };
+        // two step sizes: their difference estimates the truncation error of the oracle itself (the cost may oscillate
+        // quickly in a decision variable); the finer value is used, the estimate widens the noise band
+        double fdCoarse = stencil(h), fd = stencil(h / 2);
+        double trunc = std::fabs(fdCoarse - fd);
+        double noise = (1e5 * 2.2e-16 / 0.5e-3 + 1e-8) * (Cabs + fmax) / sc + 2 * trunc;
+        if (trunc > 1e-6 * std::fabs(fd))
+            c.event("fd_oracle_truncation_above_1e-6");
         acc.add(xGroup(*cp.e), grad(cp.idx), fd, noise);
         c.event("fd_components");
         if (getenv("VF_DEBUG"))
